@@ -23,8 +23,10 @@ var props = map[string]propCfg{
 		Scenarios: []scenCfg{
 			{Name: "loop", Quick: 3000, Thorough: 200000, Batch: 100},
 			{Name: "filter", Quick: 1200, Thorough: 80000, Batch: 100},
+			{Name: "racer", Quick: 400, Thorough: 6000, Batch: 50, Race: true},
+			{Name: "racefilter", Quick: 300, Thorough: 4000, Batch: 50, Race: true},
 		},
-		Rule: "filter: whole simulated `fzf --filter` processes (real reader, poller, chunk list, matcher). loop: one evaluation = one simulated run of 1-3 loader tasks pushing through the real ChunkList while a coordinator task snapshots and issues Matcher.Reset requests to the real Matcher.Loop (1..32 partitions) under a seeded schedule; " +
+		Rule: "racer (auxiliary, not replayable): the loop scenario's components in pass-through mode (yields are Gosched, 4 Ps) in a worker built with -race; the only oracle is the race detector. filter: whole simulated `fzf --filter` processes (real reader, poller, chunk list, matcher). loop: one evaluation = one simulated run of 1-3 loader tasks pushing through the real ChunkList while a coordinator task snapshots and issues Matcher.Reset requests to the real Matcher.Loop (1..32 partitions) under a seeded schedule; " +
 			"distinct = distinct event-log hash (schedule trace + request/publish history); non-trivial = at least one preemption (a runnable goroutine was passed over for another) happened in the run",
 		RealStub: map[string][]string{
 			"real": {"ChunkList", "ChunkCache", "Pattern", "Matcher.Loop/scan", "Merger", "util.EventBox", "util.AtomicBool"},
